@@ -336,6 +336,10 @@ class World(object):
         finally:
             info = mon.end()
             sys.stdout = old
+        if exc is not None and type(exc).__name__ == 'RunTimeout':
+            # the wall-clock backstop of simkit.isolate is not an outcome of the step: it ends the
+            # run (-> inconclusive), it is never recorded as "the operation raised"
+            raise exc
         return res, exc, info
 
     def _dry(self, step):
